@@ -88,6 +88,8 @@ def binding_inits(hfn):
         if k in ('slet', 'let') and 'init' in e:
             pat = e['pat']
             done = set()
+            while isinstance(pat, dict) and pat.get('k') == 'pref' and 'p' in pat:
+                pat = pat['p']              # `let &S { a, .. } = v;`
             if isinstance(pat, dict) and pat.get('k') == 'pstruct':
                 # `let S { a, b: c, .. } = v;` binds a to `v.a`, c to `v.b`
                 for f in pat.get('fields', []):
@@ -473,7 +475,19 @@ def inline_calls(facts, hfn, depth=3, budget=6000, skip=()):
                 h2 = facts.hir[dd]
                 mapping = param_mapping(h2, cargs)
                 if (mapping or not h2.get('params')) and _count_nodes(h2['body']) < budget:
-                    body = deref_addr(beta(subst(h2['body'], mapping)))
+                    cbody = h2['body']
+                    # capture avoidance: a local the callee binds under the name of a variable that occurs in the
+                    # arguments is renamed before the arguments are substituted in
+                    free = set()
+                    for a_ in cargs:
+                        walk(a_ if isinstance(a_, dict) else {}, lambda x, anc: free.add(x['name']) if x.get('k') == 'local' else None)
+                    pnames = set()
+                    for p_ in h2.get('params', []):
+                        pnames.update(pat_bindings(p_))
+                    clash = (_bound_names(cbody) & free) - pnames
+                    if clash:
+                        cbody = _rename_locals(cbody, {n_: n_ + "'" for n_ in clash})
+                    body = deref_addr(beta(subst(cbody, mapping)))
                     res = inline(body, d - 1, stack | {dd})
                     if isinstance(res, dict) and res.get('k') == 'block':
                         res = dict(res)
@@ -484,6 +498,33 @@ def inline_calls(facts, hfn, depth=3, budget=6000, skip=()):
             return [inline(x, d, stack) for x in n]
         return n
     return inline(hfn['body'], depth, frozenset([hfn['path']]))
+
+
+def _bound_names(e):
+    names = set()
+
+    def rec(x):
+        if isinstance(x, dict):
+            if x.get('k') == 'bind' and 'name' in x:
+                names.add(x['name'])
+            for v in x.values():
+                rec(v)
+        elif isinstance(x, list):
+            for y in x:
+                rec(y)
+    rec(e)
+    return names
+
+
+def _rename_locals(e, ren):
+    if isinstance(e, dict):
+        out = {k: _rename_locals(v, ren) for k, v in e.items()}
+        if e.get('k') in ('bind', 'local') and e.get('name') in ren:
+            out['name'] = ren[e['name']]
+        return out
+    if isinstance(e, list):
+        return [_rename_locals(x, ren) for x in e]
+    return e
 
 
 def inlined_fn(facts, hfn, depth=3, keep=()):
